@@ -61,6 +61,24 @@ def test(inp):
                 clim = coll.get_clim()
                 if tuple(clim) != (min(n * 10 + 3 for n in present), max(n * 10 + 3 for n in present)):
                     return f'{label}: colour limits {clim} do not span exactly the plotted values'
+        # history: time steps of one variable plotted one after the other on the same dataset (same name, different values)
+        steps = numpy.stack([lin, lin * 2 + 1, -lin])
+        dt = ds.assign(series=(['step'] + fdims, steps))
+        et = dt.ems
+        for t in range(3):
+            coll = must(lambda: et.make_poly_collection(dt['series'].isel(step=t)), f'make_poly_collection (time step {t} after earlier steps)')
+            arr = numpy.asarray(coll.get_array())
+            want = steps[t].ravel()[present]
+            if len(arr) != len(want) or not numpy.array_equal(arr, want):
+                return f'time step {t} plotted after earlier steps of the same variable carries other values than the ones given'
+            if tuple(coll.get_clim()) != (want.min(), want.max()):
+                return f'time step {t} plotted after earlier steps: colour limits {coll.get_clim()} are not those of the plotted values'
+        try:
+            et.make_poly_collection(dt['series'])
+        except ValueError:
+            pass
+        else:
+            return 'a variable with a leftover dimension is accepted once a slice of the same name was plotted'
         # infinite values (log of zero ...) in cells that have geometry: still one value per patch, each with its own cell
         if len(present) >= 3:
             inf_lin = lin.copy().ravel()
